@@ -9,4 +9,7 @@ cp /repo/go.sum mc/go.sum
 (cd mc && go build -tags verif -overlay ../.build/overlay.json -o ../.build/bin/mc-setup ./cmd/mc)
 .build/bin/mc-setup -list >/dev/null
 rm -f .build/bin/mc-setup
+# warm the caches of the C19 pipeline (instrumented build and -race build)
+(cd mc && go build -race -o ../.build/bin/race19-setup ./cmd/race19 && go build -o ../.build/bin/instr-setup ./cmd/instr)
+rm -f .build/bin/race19-setup .build/bin/instr-setup
 echo "setup ok"
